@@ -8,7 +8,8 @@ CFG = {
             "peerbook",
             260,
             1200
-        ]
+        ],
+        ["peeraddrace", 12, 100]
     ],
     "engine_timeout": 1500,
     "rule": "peerbook: random scenarios over 2-3 real listening channels (+ sometimes a client-only channel) in one process: Connect (plain, through an alias host:port so that the announced host:port differs, to itself, to a closed channel, with Channel.Close during the dial), graceful Connection.Close from either side, simultaneous closes from both sides / of every connection of a channel, abrupt failure (raw socket closed), idle sweep (stub clock + ticker), PeerList Add/Remove on the channel list and two isolated sub-channel lists, RootPeers().GetOrAdd, Channel.Close (single, double, two channels at once); about a third of the connects park the activating goroutine (dial side round 1 / mismatch round 2, accept side) at peer.addConnection.afterCheck while 1-2 further operations run (close the parked channel, sweep it, fail or remotely close the parked link, close another connection to the same peer, list operations); every 12th scenario forces the window inside PeerList.Add (schedule point peerlist.Add.afterRootAdd, added by this check to the library copy: the peer loses its only connection between RootPeerList.Add and addSC; infeasible, not a failure, when the library has no such point). One case per (scenario, channel): the channel's macro script (handshakes, observed state changes, list operations, parks) and a snapshot after every operation. Non-trivial = the channel had at least one connection; distinct by script.",
